@@ -218,8 +218,9 @@ def concrete_playback(crate, harness, timeout=900):
 RE_PB_HEAD = re.compile(r"Concrete playback unit test for `([^`]+)`:\s*\n```\n(.*?)```", re.S)
 
 
-def concrete_playback_batch(crate, harnesses, timeout=2400, jobs=8):
-    """One re-run of all failing harnesses asking for concrete values.
+def concrete_playback_batch(crate, harnesses, timeout=3000, jobs=1):
+    """One re-run of all failing harnesses asking for concrete values (Kani refuses
+    --concrete-playback together with -j > 1, so they run sequentially inside one invocation).
     Returns ({harness: test_source}, raw_output)."""
     res, wall, out = run(crate, harnesses, jobs=jobs, timeout=timeout,
                          extra=["-Z", "concrete-playback", "--concrete-playback=print"])
